@@ -271,7 +271,9 @@ def b_bool(E, st, node, args, kw):
 def b_getattr(E, st, node, args, kw):
     o, name = args[0], args[1]
     if not isinstance(name, str):
-        raise Unsupported("getattr with symbolic name")
+        # symbolic attribute name: an uninterpreted pure read
+        f = z3.Function("getattr_U", U, U, U)
+        return [(st, f(to_U(o), to_U(name)), None)]
     if len(args) == 3:
         # getattr(o, name, default): attribute presence is an uninterpreted predicate
         has = z3.Function(f"hasattr.{name}", U, z3.BoolSort())(to_U(o))
